@@ -191,6 +191,11 @@ class StmtMixin:
             t = self.c.types.get(s.targets[0].id)
             if t is not None and t.kind == 'list':
                 s.value._elem_hint = t.args[0]
+        if isinstance(s.value, ast.Call) and isinstance(s.value.func, ast.Name) and s.value.func.id in ('set', 'list') and not s.value.args \
+                and len(s.targets) == 1 and isinstance(s.targets[0], ast.Name):
+            t = self.c.types.get(s.targets[0].id)
+            if t is not None and t.kind in ('set', 'list'):
+                s.value._elem_hint = t.args[0]
         if isinstance(s.value, ast.Dict) and isinstance(s.targets[0], ast.Attribute):
             ft = self.static_attr_type(s.targets[0], st)
             if ft is not None and ft.kind == 'dict':
